@@ -324,7 +324,9 @@ UpdGen(mIn, e) ==
       \* C15: a save that closes a bundle the plan opened (and that nothing cancelled) is not answered "no bundle is open"
       m1s == ViolIf(m1, m0.expectEvent # "none" /\ inp = "throw" /\ val = "IMS" /\ m0.planMsg.cmd = "save", "C15:save-rejected-in-open-bundle")
       \* C12: a device error must be what the plan is resumed with
-      m2 == IF m1s.devErrPending THEN ViolIf([m1s EXCEPT !.devErrPending = FALSE], ~(inp = "throw" /\ val = "DevErr"), "C12:device-error-not-delivered") ELSE m1s
+      \* (an abort/stop/halt accepted before the plan was resumed pre-empts it: the plan is resumed with that request's exception)
+      m2 == IF m1s.devErrPending THEN ViolIf([m1s EXCEPT !.devErrPending = FALSE], ~(inp = "throw" /\ val = "DevErr") /\ m1s.term = {} /\ m1s.termLate = {},
+                                            "C12:device-error-not-delivered") ELSE m1s
       m3x == IF inp = "throw" /\ val = "FailedStatus" THEN [m2 EXCEPT !.failPending = FALSE] ELSE m2
       \* C13: the value sent is the response to the plan's own message
       m3 == IF inp = "throw" /\ m3x.planMsg.cmd \in ImplicitCkptCmds THEN [m3x EXCEPT !.c04off = TRUE, !.replaying = FALSE, !.expect = <<>>] ELSE m3x
